@@ -643,8 +643,7 @@ class Interp:
         if rest:
             binds.append((rest, JTuple(extra)))
         if keys is not None or named is not None:
-            if len(extra) % 2:
-                raise JErr(RT)
+            # only complete key-value pairs; a dangling key is ignored (as after a normal call in janet)
             st = JStruct(zip(extra[0::2], extra[1::2]))
             if keys is not None:
                 binds.append((keys, st))
